@@ -402,8 +402,14 @@ func (so *SimpleOptimizer) binaryopInts(
 	case token.Or:
 		val = left.Value | right.Value
 	case token.Shl:
+		if right.Value < 0 {
+			return nil, false
+		}
 		val = left.Value << right.Value
 	case token.Shr:
+		if right.Value < 0 {
+			return nil, false
+		}
 		val = left.Value >> right.Value
 	case token.AndNot:
 		val = left.Value &^ right.Value
